@@ -23,6 +23,7 @@ namespace c15
         virtual int newdata(const std::string &d, bool &has_ret) = 0;
         // sline_newdata(data, n) with the length exactly as given (C: int, may be negative; C++: size_t, n >= 0)
         virtual int newdata_n(const std::string &d, int n, bool &has_ret) = 0;
+        virtual bool newdata_sz(const std::string &, size_t) { return false; }   // igris::sline::newdata(data, size_t) with the size as given
         virtual bool clear() = 0;                                     // igris::sline::clear (false: no such call in this family)
         virtual bool set_size_cursor(unsigned len, unsigned cur) = 0; // igris::sline::set_size_and_cursor
         virtual int backspace(unsigned n) = 0;
@@ -57,6 +58,9 @@ namespace c15
         std::vector<ev> evs;
         virtual void init_step() = 0;
         virtual void key(uint8_t c) = 0;
+        virtual void key16(int16_t c) = 0;   // the parameter exactly as given (a `char` argument is converted by the compiler)
+        virtual void set_prompt(const std::string &p) = 0;
+        virtual void set_echo(bool e) = 0;
         virtual int state() = 0;             // terminal automaton state
         virtual int rlstate() = 0;           // its readline's escape automaton state
         virtual unsigned len() = 0;
@@ -73,5 +77,6 @@ namespace c15
 
     // constants of the compiled headers
     std::string consts_c();
+    std::string consts2_x();   // sizeof of igris::readline's ring indices
 }
 #endif
